@@ -40,4 +40,29 @@ CHECKS = {
             {"pkg": "pure", "run": "^TestC12CorruptionExhaustive$", "quick": 1, "thorough": 1, "only": "thorough", "rapid": False},
         ],
     },
+    "C02": {
+        "level": "fault_enumeration",
+        "assumptions": ["liveness is judged with a 20 s bound (operations take milliseconds) plus a goroutine dump; only generated event orders are seen",
+                        "a local Close is not by itself a terminal event for pending calls (graceful close waits for their replies, see C08)"],
+        "runs": [
+            {"pkg": "core", "run": "^TestC02Completion$", "quick": 1500, "thorough": 60000, "shards_thorough": 8},
+            {"pkg": "core", "run": "^TestC02CutSweep$", "quick": 1, "thorough": 1, "rapid": False},
+        ],
+    },
+    "C03": {
+        "level": "exploration",
+        "assumptions": ["transport write faults during the reply are outside the property's quantifier and are not injected"],
+        "runs": [
+            {"pkg": "core", "run": "^TestC03Dispatch$", "quick": 1500, "thorough": 60000, "shards_thorough": 8},
+        ],
+    },
+    "C04": {
+        "level": "exploration",
+        "assumptions": ["status text domain per protocol: any bytes for raw/json/pb/ws, valid UTF-8 for http (JSON status document); an empty cause equals no cause over http",
+                        "handler statuses travel to the handler inside the request body, so their text is restricted to what the request codec can carry (XML-valid / valid UTF-8)"],
+        "runs": [
+            {"pkg": "core", "run": "^TestC04Status$", "quick": 1500, "thorough": 60000, "shards_thorough": 8},
+            {"pkg": "core", "run": "^TestC04KnownProbes$", "quick": 1, "thorough": 1, "rapid": False},
+        ],
+    },
 }
